@@ -390,7 +390,7 @@ def encE (T : Nat) (G : Forest H) (h : Nat) : U64 := encP T (rootPos G.numLeaves
 
 /-- **the loop of `undoSingleAdd`**, by induction on the low trees (highest first) that are still
 merged into the accumulated tree -/
-theorem unadd_levels (cr : CR H) (hn63 : G.numLeaves + xs.length + 1 < 2 ^ 63)
+theorem unadd_levels (nz : NZ H) (hn63 : G.numLeaves + xs.length + 1 < 2 ^ 63)
     (hfit : forestRows (G.numLeaves + xs.length + 1) ≤ T)
     (htc : G.numLeaves + xs.length = 2 ^ (t + 1) * c + (2 ^ t - 1))
     (hyp : Hyg (G.addMany xs))
@@ -430,8 +430,8 @@ theorem unadd_levels (cr : CR H) (hn63 : G.numLeaves + xs.length + 1 < 2 ^ 63)
     obtain ⟨ok0, hnodes0⟩ := step0_pf (G.addMany xs) x (by rw [hnp]; omega) hyp hxfresh hx0 hxph
     rw [hnp] at ok0 hnodes0
     rw [hY] at inv
-    have L' := laws_of_ok cr ok0
-    have Lp := laws_forest cr (G.addMany xs) hn64 hyp
+    have L' := laws_of_ok nz ok0
+    have Lp := laws_forest nz (G.addMany xs) hn64 hyp
     have hN' : ∀ e, e ∈ PForest.nodes (ofForest (G.addMany xs) ++ [((0, G.numLeaves + xs.length), some (CTree.leaf x))]) ↔
         e ∈ (G.addMany xs).nodes ∨ e = ((0, G.numLeaves + xs.length), x, true) := by
       intro e; rw [hnodes0, List.mem_append, List.mem_singleton]
@@ -559,7 +559,7 @@ theorem unadd_levels (cr : CR H) (hn63 : G.numLeaves + xs.length + 1 < 2 ^ 63)
       obtain ⟨ok', hN', hR', hfresh⟩ := stepA_pf Y (rootPos (G.numLeaves + xs.length) ro.length) tr
         (mergeLow ro.reverse (.leaf x)) heven okj'
       rw [hPρ] at ok' hN' hR' hfresh
-      have L' := laws_of_ok cr ok'
+      have L' := laws_of_ok nz ok'
       have hPN' : ((ro.length + 1, (G.numLeaves + xs.length) >>> (ro.length + 1)),
           ph tr.hash (mergeLow ro.reverse (.leaf x)).hash, false) ∈ PForest.nodes
           (Y ++ [((ro.length + 1, (G.numLeaves + xs.length) >>> (ro.length + 1)),
@@ -595,7 +595,7 @@ theorem unadd_levels (cr : CR H) (hn63 : G.numLeaves + xs.length + 1 < 2 ^ 63)
         exact encP_inj' hT ⟨hv1.1, hv1.2⟩ hρv e
       rw [undoSingleAddLoop_skip rep.rows hT hsv (by show 1 ≤ ro.length + 1; omega) ro.length _ hne, hc1,
         filter_lt_succ_not_mem _ _ hnotin]
-      obtain ⟨m', A', C', hloop, rep', hnl', hfl', inv', hdom'⟩ := unadd_levels cr hn63 hfit htc hyp hx0 hxph hxfresh ro
+      obtain ⟨m', A', C', hloop, rep', hnl', hfl', inv', hdom'⟩ := unadd_levels nz hn63 hfit htc hyp hx0 hxph hxfresh ro
         (Y ++ [(rootPos (G.numLeaves + xs.length) ro.length, some tr)]) (by omega) hY' _ _ C rep1 (hfl1.trans hfull) inv1
       exact ⟨m', A', C', hloop, rep', hnl'.trans hnl1, hfl', inv', hdom'⟩
     | none =>
@@ -607,8 +607,8 @@ theorem unadd_levels (cr : CR H) (hn63 : G.numLeaves + xs.length + 1 < 2 ^ 63)
       obtain ⟨ok', hN', hR'⟩ := stepB_pf Y (ro.length, (G.numLeaves + xs.length) >>> ro.length)
         (mergeLow ro.reverse (.leaf x)) okj'
       rw [hPσ] at ok' hN' hR'
-      have L' := laws_of_ok cr ok'
-      have L := laws_of_ok cr okj'
+      have L' := laws_of_ok nz ok'
+      have L := laws_of_ok nz okj'
       have hρN : (sib (ro.length, (G.numLeaves + xs.length) >>> ro.length), (zero : H), false) ∈
           PForest.nodes (Y ++ [(sib (ro.length, (G.numLeaves + xs.length) >>> ro.length), none),
             ((ro.length, (G.numLeaves + xs.length) >>> ro.length), some (mergeLow ro.reverse (.leaf x)))]) := by
@@ -652,7 +652,7 @@ theorem unadd_levels (cr : CR H) (hn63 : G.numLeaves + xs.length + 1 < 2 ^ 63)
         unfold encE; rw [hc0, hrp]
       rw [hhead, undoSingleAddLoop_place rep.rows hT hsv (by show 1 ≤ ro.length + 1; omega) ro.length _
         (by rw [hc0]; exact hpl), hc1, hc0]
-      obtain ⟨m', A', C', hloop, rep', hnl', hfl', inv', hdom'⟩ := unadd_levels cr hn63 hfit htc hyp hx0 hxph hxfresh ro
+      obtain ⟨m', A', C', hloop, rep', hnl', hfl', inv', hdom'⟩ := unadd_levels nz hn63 hfit htc hyp hx0 hxph hxfresh ro
         (Y ++ [(rootPos (G.numLeaves + xs.length) ro.length, none)]) (by omega) hY' _ _ _ rep3
         (show m2.full = false from hfl2.trans (hfl1.trans hfull)) inv1
       refine ⟨m', A', C', hloop, rep', hnl'.trans (hnl2.trans hnl1), hfl', inv', ?_⟩
@@ -714,7 +714,7 @@ theorem filter_all {α : Type} (p : α → Bool) : ∀ (l : List α), (∀ a ∈
     rw [List.filter_cons, if_pos (h a List.mem_cons_self), filter_all p l (fun b hb => h b (List.mem_cons_of_mem _ hb))]
 
 /-- **`undoSingleAdd`**: the last addition `x` is taken back -/
-theorem unadd_single (cr : CR H) {T : Nat} (G : Forest H) (xs : List H) (x : H) (Kp : H → Prop)
+theorem unadd_single (nz : NZ H) {T : Nat} (G : Forest H) (xs : List H) (x : H) (Kp : H → Prop)
     (hn63 : G.numLeaves + xs.length + 1 < 2 ^ 63)
     (hfit : forestRows (G.numLeaves + xs.length + 1) ≤ T)
     (hyp : Hyg (G.addMany (xs ++ [x])))
@@ -754,7 +754,7 @@ theorem unadd_single (cr : CR H) {T : Nat} (G : Forest H) (xs : List H) (x : H) 
       (fun y => (C y).isSome = true) Kp (fun _ => False) := by
     rw [List.length_reverse, List.reverse_reverse, hlen, ← hdec', nodes_ofForest]
     exact HInvP.congr_R inv (isRoot_ofForest _ hn1)
-  obtain ⟨m', A', C', hloop, rep', hnl', hfl', inv', hdom'⟩ := unadd_levels G xs x Kp cr hn63 hfit htc hyG hx0 hxph hxfresh
+  obtain ⟨m', A', C', hloop, rep', hnl', hfl', inv', hdom'⟩ := unadd_levels G xs x Kp nz hn63 hfit htc hyG hx0 hxph hxfresh
     os.reverse Y (by rw [List.length_reverse, hlen]; exact Nat.le_refl _) (by rw [List.reverse_reverse]; exact hdec.symm)
     m A C rep hfull inv0
   rw [List.length_reverse, hlen, filter_all _ _ (fun a ha => by simpa using newRows_lt G htc a ha), ← destroyed_succ] at hloop
@@ -771,7 +771,7 @@ theorem forestRows_mono_succ (n : Nat) : forestRows n ≤ forestRows (n + 1) :=
   SpecView.forestRows_le (Nat.le_trans (Nat.le_succ n) (forestRows_spec_le (n + 1)))
 
 /-- **the loop of `undoAdd`**: all additions `xs` are taken back, the last one first -/
-theorem unadd_loop (cr : CR H) {T : Nat} (G : Forest H) (Kp : H → Prop) : ∀ (xs : List H),
+theorem unadd_loop (nz : NZ H) {T : Nat} (G : Forest H) (Kp : H → Prop) : ∀ (xs : List H),
     G.numLeaves + xs.length < 2 ^ 63 → forestRows (G.numLeaves + xs.length) ≤ T → Hyg (G.addMany xs) →
     ∀ {m : MapPollard H} {A : Pos → Option (Leaf H)} {C : H → Option Pos}, Rep m T A C → m.full = false →
     m.numLeaves = BitVec.ofNat 64 (G.numLeaves + xs.length) →
@@ -798,7 +798,7 @@ theorem unadd_loop (cr : CR H) {T : Nat} (G : Forest H) (Kp : H → Prop) : ∀ 
     intro hn63 hfit hyp m A C rep hfull hnl inv
     subst hk'
     rw [← Nat.add_assoc] at hn63 hfit hnl
-    obtain ⟨m1, A1, C1, hrun, rep1, hnl1, hfl1, inv1, hdom1⟩ := unadd_single cr G xs x Kp hn63 hfit hyp rep hfull hnl inv
+    obtain ⟨m1, A1, C1, hrun, rep1, hnl1, hfl1, inv1, hdom1⟩ := unadd_single nz G xs x Kp hn63 hfit hyp rep hfull hnl inv
     have hyp1 : Hyg (G.addMany xs) := by
       rw [addMany_snoc] at hyp
       have hll : ((G.addMany xs).add x).liveLeaves = (G.addMany xs).liveLeaves ++ [x] := by
